@@ -6,10 +6,15 @@ package c10
 // replays/C10/. Everything outside these classes stays fully searched.
 
 import (
+	"os"
 	"regexp"
 	"regexp/syntax"
 	"strings"
 )
+
+// C10_NO_EXCLUSIONS=1 switches every known-finding exclusion off (used to validate a candidate fix: the full
+// generators must then pass).
+var noExclusions = os.Getenv("C10_NO_EXCLUSIONS") != ""
 
 func stripCapture(re *syntax.Regexp) *syntax.Regexp {
 	for re.Op == syntax.OpCapture {
@@ -169,6 +174,9 @@ func hasFoldCase(re *syntax.Regexp) bool {
 // The anchors are judged on the pattern as written (a group hides what follows an anchor from the index's
 // first simplification pass); the literal-prefix and alternatives rules on the flattened form.
 func knownRegexDefect(pat string) string {
+	if noExclusions {
+		return ""
+	}
 	if strings.ContainsAny(pat, "\x00\x01\x02") {
 		// literal text is compared with the escaped form of stored values
 		return "regex_containing_bytes_0_1_2"
@@ -301,6 +309,9 @@ func knownRegexDefect(pat string) string {
 
 // knownPredDefect names the known-finding class of a whole predicate tree ("" = none).
 func knownPredDefect(p *pnode) string {
+	if noExclusions {
+		return ""
+	}
 	hasAnd, negAll := false, false
 	p.walk(func(n *pnode) {
 		if n.Op == "AND" {
